@@ -241,15 +241,35 @@ func WorkerMain(prop, casesFile, outFile string) int {
 	// in-process watchdog: a case that exceeds its wall-clock limit is analysed (stable blocked
 	// state or not), reported, and the process ends; the parent re-runs the rest of the batch.
 	go func() {
+		lastAct, lastChange := Activity.Load(), time.Now()
+		var lastCase *Case
 		for {
 			time.Sleep(250 * time.Millisecond)
 			c := cur.Load()
-			if c == nil || time.Since(time.Unix(0, started.Load())) < ct {
+			if c == nil {
+				continue
+			}
+			if c != lastCase {
+				lastCase, lastAct, lastChange = c, Activity.Load(), time.Now()
+			}
+			if a := Activity.Load(); a != lastAct {
+				lastAct, lastChange = a, time.Now()
+			}
+			running := time.Since(time.Unix(0, started.Load()))
+			// early examination: the engine fires hooks all the time while it works; a case whose hook
+			// counter has been silent for 40 s (and which used hooks before) is examined right away and
+			// ended only if the analysis finds a stable blocked state
+			silent := chk.OnStuck != nil && lastAct > 0 && time.Since(lastChange) > 40*time.Second && running > 40*time.Second
+			if running < ct && !silent {
+				continue
+			}
+			an := AnalyseStuck(3 * time.Second)
+			if running < ct && !an.Stable {
+				lastChange = time.Now() // not wedged: keep waiting for the hard limit
 				continue
 			}
 			res := Result{ID: c.ID, Verdict: "inconclusive"}
-			an := AnalyseStuck(3 * time.Second)
-			res.Inconcl = fmt.Sprintf("watchdog: case still running after %v; %s", ct, an.Summary)
+			res.Inconcl = fmt.Sprintf("watchdog: case still running after %v; %s", running.Round(time.Second), an.Summary)
 			res.Trace = map[string]any{"stuck_analysis": an}
 			if chk.OnStuck != nil {
 				chk.OnStuck(*c, an, &res)
